@@ -475,3 +475,41 @@ class lshift:
 
     def returns(self, other):
         return S.lshift_spec(self, other)
+
+
+# ------------------------------------------------------------------ C08 assignment: promotion and decision
+from serif.errors import SerifTypeError, SerifIndexError, SerifValueError  # noqa: E402
+from serif.alias_tracker import AliasError  # noqa: E402
+
+
+@contract('serif.vector.Vector._can_promote', props=['C08', 'C03'])
+class can_promote_c:
+    params = {'from_kind': 'kind', 'to_kind': 'kind'}
+
+    def returns(from_kind, to_kind):
+        return S.can_promote(from_kind, to_kind)
+
+
+def _promote_rejected(self, new_dtype):
+    return not (self._dtype.kind is new_dtype or S.can_promote(self._dtype.kind, new_dtype))
+
+
+@contract('serif.vector.Vector._promote', props=['C08', 'C03', 'C18'])
+class promote:
+    """C08: a wider compatible kind promotes the whole column with existing elements converted
+    (None kept, nullability kept, name untouched); anything else raises SerifTypeError before
+    anything is changed."""
+    params = {'self': 'vector', 'new_dtype': 'kind'}
+    raises = [(SerifTypeError, _promote_rejected, True)]
+
+    def requires(self):
+        return self._dtype is not None and S.valid_dtype(self._dtype) and S.truthful(self)
+
+    def _new_dtype(self, new_dtype):
+        return DataType(new_dtype, self._dtype.nullable)
+
+    def _new_values(self, new_dtype):
+        if self._dtype.kind is new_dtype:
+            return self._underlying
+        return tuple(S.convert_value(new_dtype, x) for x in self._underlying)
+    updates = {'_dtype': _new_dtype, '_underlying': _new_values}
